@@ -9,6 +9,8 @@ import (
 	"testing"
 	"time"
 
+	"github.com/nspcc-dev/neo-go/pkg/network/bqueue"
+
 	"verif/checks/c20/qh"
 	"verif/lib/sched"
 	"verif/lib/vk"
@@ -17,17 +19,18 @@ import (
 func configs() []*sched.Config {
 	thorough := os.Getenv("VERIF_TIER") == "thorough"
 	var cfgs []*sched.Config
-	for _, sc := range qh.Scenarios(false) {
+	for _, sc := range qh.Scenarios(thorough) {
 		sc := sc
 		c := &sched.Config{
 			Name:    sc.FullName(),
 			Horizon: 2,
 			Body:    func(r *sched.Run) { qh.Run(sc, r) },
 		}
-		// thorough: preemption bound 3 on the cache-size-2 variants of the
-		// scenarios without a Discard thread (bound 3 on everything is ~2*10^8
-		// schedules); bound 2 on all.
-		if thorough && sc.Cap == 2 && !sc.Discard {
+		// thorough: preemption bound 3 on the cache-size-2 NonBlocking variants
+		// of the scenarios without a Discard thread and on three Blocking ones
+		// (bound 3 on everything is ~2*10^8 schedules); bound 2 on all.
+		deeperBlocking := map[string]bool{"dup-cons": true, "reverse": true, "far-ahead": true}
+		if thorough && sc.Cap == 2 && !sc.Discard && (sc.Mode == bqueue.NonBlocking || deeperBlocking[sc.Name]) {
 			c.MaxBound = 3
 		}
 		cfgs = append(cfgs, c)
